@@ -69,13 +69,11 @@ impl AtomKind {
                     Err(_) => return self
                 };
 
-                for target in aromatic.targets() {
-                    if valence == target - allowance {
-                        return AtomKind::Aromatic(aromatic)
-                    }
+                match aromatic.targets().iter().find(|&&target| target >= bond_order_sum) {
+                    Some(target) if valence == target - allowance =>
+                        AtomKind::Aromatic(aromatic),
+                    _ => self
                 }
-
-                self
             },
             BracketSymbol::Element(element) => {
                 let valence = bond_order_sum.checked_add(match hcount {
@@ -87,13 +85,11 @@ impl AtomKind {
                     Err(_) => return self
                 };
 
-                for target in aliphatic.targets() {
-                    if target == &valence {
-                        return AtomKind::Aliphatic(aliphatic)
-                    }
+                match aliphatic.targets().iter().find(|&&target| target >= bond_order_sum) {
+                    Some(target) if target == &valence =>
+                        AtomKind::Aliphatic(aliphatic),
+                    _ => self
                 }
-
-                self
             }
         }
     }
